@@ -1,16 +1,36 @@
 --------------------------- MODULE GenGatewayRange ---------------------------
-(* Phase G generator: one printed case per request of ReqSpace with the ideal response and, where the
-   open deviations Devs change it, the as-built alternative with the deviations that matter.
-   Responses are tuples <<st, crk, crs, cre, cl, boff, blen>> in abstract units (half-open). *)
+(* Phase M and phase G in one pass over the class product of GatewayRange: for every request the
+   responses are computed once, the property invariants are checked, and one case is printed with
+   the ideal response and, where the open deviations Devs change it, the as-built alternative with
+   the deviations that matter.  Responses are printed as tuples
+   <<st, crk, crs, cre, cl, boff, blen>> in abstract units (half-open).
+     IdealConsistent  : Consistent(q, Ideal(q))
+     IdealHeadMirror  : HEAD has the status and headers of GET
+     PipelineIsIdeal  : the model of the code's pipeline with all gates closed is the ideal
+     DiffIsAttributed : every difference of the as-built pipeline is attributed to a named deviation
+     DevsDetected     : wherever a deviation matters the as-built response violates Consistent
+                        (the property is sensitive to every occurrence; not vacuous) *)
 EXTENDS GatewayRange, Json
 CONSTANT Devs
 
 Tup(r) == <<r.st, r.crk, r.crs, r.cre, r.cl, r.boff, r.blen>>
 RECURSIVE SeqOf(_)
 SeqOf(S) == IF S = {} THEN <<>> ELSE LET x == CHOOSE x \in S : TRUE IN <<x>> \o SeqOf(S \ {x})
+Fail(what) == PrintT(<<"FAILED", what, q>>) /\ FALSE
 
-Case == LET id == Ideal(q)  ab == AsBuiltR(q, Devs) IN
-        IF ab = id THEN [q |-> q, ideal |-> Tup(id)]
-        ELSE [q |-> q, ideal |-> Tup(id), alt |-> Tup(ab), devs |-> SeqOf(Fired(q, Devs))]
-Emit == ~Chosen \/ PrintT(<<"BEHAVIOUR", ToJson(Case)>>)
+Checks ==
+  ~Chosen \/
+  LET id  == Ideal(q)
+      all == AsBuiltR(q, AllDevs)
+      ab  == IF Devs = AllDevs THEN all ELSE IF Devs = {} THEN id ELSE AsBuiltR(q, Devs)
+      fa  == IF all = id THEN {} ELSE {d \in AllDevs : all # AsBuiltR(q, AllDevs \ {d})}
+      fd  == IF ab = id THEN {} ELSE IF Devs = AllDevs THEN fa ELSE {d \in Devs : ab # AsBuiltR(q, Devs \ {d})}
+  IN /\ Consistent(q, id) \/ Fail("IdealConsistent")
+     /\ (q.meth = "HEAD" => HeadMirrorsGet(q)) \/ Fail("IdealHeadMirror")
+     /\ AsBuiltR(q, {}) = id \/ Fail("PipelineIsIdeal")
+     /\ (all # id => fa # {}) \/ Fail("DiffIsAttributed")
+     /\ (fa # {} => ~Consistent(q, all)) \/ Fail("DevsDetected")
+     /\ PrintT(<<"BEHAVIOUR", ToJson(
+           IF ab = id THEN [q |-> q, ideal |-> Tup(id)]
+           ELSE [q |-> q, ideal |-> Tup(id), alt |-> Tup(ab), devs |-> SeqOf(fd)])>>)
 =============================================================================
